@@ -1,2 +1,20 @@
-import Mingus.Model.Basic
-import Mingus.Model.Notes
+-- Root of the `Mingus` library: importing everything makes `lake build Mingus` (MANIFEST.setup_cmd) build every
+-- model, lemma, property and tie module.
+import Mingus.Model.Dispatch
+import Mingus.Props.C01
+import Mingus.Props.C02
+import Mingus.Props.C03
+import Mingus.Props.C04
+import Mingus.Props.C05
+import Mingus.Props.C06
+import Mingus.Props.C07
+import Mingus.Props.C07Forms
+import Mingus.Props.C08
+import Mingus.Tie.C01
+import Mingus.Tie.C02
+import Mingus.Tie.C03
+import Mingus.Tie.C04
+import Mingus.Tie.C05
+import Mingus.Tie.C06
+import Mingus.Tie.C07
+import Mingus.Tie.C08
